@@ -134,6 +134,11 @@ class Calls(object):
                     return None
                 out.extend(t)
             return out or None
+        if isinstance(expr, ast.Call) and isinstance(expr.func, (ast.Name, ast.Attribute)):
+            # Cls(args).m(...): the receiver is a fresh instance of Cls
+            r = self.prog.resolve_in_func(func, expr.func)
+            if r is not None and r[0] == "class":
+                return [r[1]]
         return None
 
     # ------------------------------------------------------------ resolution
